@@ -42,7 +42,7 @@ func runC09Concurrent(ctx *core.Ctx, out *core.Out) {
 	if cs.Path == cpReadLimit {
 		ep.c.SetReadLimit(5)
 	}
-	a.GateIf = func(p []byte) bool { return len(p) > 0 && p[0]&0x0f == 8 }
+	a.GateIf = closeFrameDetector(!cs.Cfg.Server)
 	gate := make(chan struct{})
 	a.Gate = gate
 	a.Gated = make(chan struct{}, 1)
@@ -182,6 +182,19 @@ func runC09Concurrent(ctx *core.Ctx, out *core.Out) {
 		a.Close()
 		b.Close()
 		return
+	}
+	// a reader-triggered close is sent by the reader goroutine: wait until it is through
+	if cs.Path >= cpCloseHandler {
+		for i := 0; i < 20000 && atomic.LoadInt64(&rdDone) == 0; i++ {
+			time.Sleep(time.Millisecond)
+		}
+		if atomic.LoadInt64(&rdDone) == 0 {
+			out.Inconcl("the reader had not finished sending its close 20 s after the gate was released")
+			out.Eval(core.J(cs), false)
+			a.Close()
+			b.Close()
+			return
+		}
 	}
 	// calls that start now are strictly after the close
 	postT := ep.tick()
@@ -325,4 +338,52 @@ func min3(a, b int) int {
 		return a
 	}
 	return b
+}
+
+// closeFrameDetector returns a GateIf predicate that follows the frame
+// boundaries of the written stream (a frame may reach the transport in two
+// Write calls, header+buffered bytes and then the rest of the payload) and
+// selects exactly the Write that starts a close frame.
+func closeFrameDetector(masked bool) func(p []byte) bool {
+	remaining := 0
+	return func(p []byte) bool {
+		if remaining > 0 {
+			if len(p) >= remaining {
+				remaining = 0
+			} else {
+				remaining -= len(p)
+			}
+			return false
+		}
+		if len(p) < 2 {
+			return false
+		}
+		hdr := 2
+		n := int(p[1] & 0x7f)
+		switch n {
+		case 126:
+			if len(p) < 4 {
+				return false
+			}
+			n = int(p[2])<<8 | int(p[3])
+			hdr = 4
+		case 127:
+			if len(p) < 10 {
+				return false
+			}
+			n = 0
+			for i := 2; i < 10; i++ {
+				n = n<<8 | int(p[i])
+			}
+			hdr = 10
+		}
+		if masked {
+			hdr += 4
+		}
+		total := hdr + n
+		if len(p) < total {
+			remaining = total - len(p)
+		}
+		return p[0]&0x0f == 8
+	}
 }
